@@ -197,6 +197,26 @@ func RunC01(e *core.Env) int {
 	if e.Tier == "thorough" {
 		n = 6000
 	}
+	// the type-pair matrix shared with C04: complete in thorough, a seeded 1/8 slice in quick
+	parts := 8
+	if e.Tier == "thorough" {
+		parts = 1
+	}
+	ms, total := matrixScenarios(e.Seed, parts)
+	rep.Extra("matrix_methods_total", total)
+	rep.Extra("matrix_methods_run", len(ms))
+	for start, bi := 0, 0; start < len(ms); start, bi = start+200, bi+1 {
+		end := start + 200
+		if end > len(ms) {
+			end = len(ms)
+		}
+		if b, err := NewBatch(e, fmt.Sprintf("matrix-b%d", bi), ms[start:end]); err == nil {
+			b.RunTool(e, true)
+			for _, c := range b.Cases {
+				c01Judge(rep, c)
+			}
+		}
+	}
 	runBroadBatches(e, rep, "broad", n, 200, func(c *CaseResult) {
 		c01Judge(rep, c)
 		if len(c.TypeErrs) == 0 && c.Out != nil {
